@@ -21,6 +21,8 @@ package reference
 //@   ensures err == nil ==> !(res.fragmentID != nil && res.identity != nil && res.nonRESTURI != nil)
 //@   ensures err == nil && res.serviceBaseURL != "" ==> res.identity != nil
 //@   ensures err == nil && res.identity != nil ==> res.resType != nil
+// the service base URL is the text in front of the Type/id part, as written (minus trailing '/')
+//@   ensures err == nil && res.identity != nil ==> strprefix(res.serviceBaseURL, uri)
 
 //@ func IdentityFromURL(url) (res, err)
 //@   requires reNumSub(restFHIRServiceResourceURLRegex) == 5
@@ -46,3 +48,21 @@ package reference
 //@ func (lit *LiteralInfo) URIString() (res)
 //@   ensures lit == nil ==> res == ""
 //@   ensures lit != nil && lit.fragmentID == nil && lit.identity == nil && lit.nonRESTURI == nil ==> res == ""
+
+// C19: a strong (typed) reference names the resource type by its oneof field: the field name
+// without "_id", camel-cased; id and version come from the ReferenceId
+//@ func identityOfStrong(ref) (res, err)
+//@   requires ref != nil
+//@   let rv = pbReflect(box(ref))
+//@   let fld = pbWhichOneof(rv, pbOneofByName(pbOneofs(pbDesc(rv)), "reference"))
+//@   let fname = string(pbName(fld))
+//@   let tname = camelS(ite(strsuffix("_id", fname), fname[:len(fname) - 3], fname))
+//@   ensures fld == nil ==> is(err, ErrReferenceOneOfResourceNotSet)
+//@   ensures err == nil ==> res != nil && string(res.typeName) == tname
+//@   ensures fld != nil && istype(pbIface(pbMsg(pbGet(rv, fld))), *dtpb.ReferenceId) ==> (err == nil) == isResourceTypeS(tname)
+//@ func oneofReferenceDescriptor(x) (res, err)
+//@   requires x != nil
+//@   ensures res == pbWhichOneof(pbReflect(box(x)), pbOneofByName(pbOneofs(pbDesc(pbReflect(box(x)))), "reference"))
+//@   ensures (err == nil) == (res != nil)
+//@   ensures err != nil ==> is(err, ErrReferenceOneOfResourceNotSet)
+//@   assigns nothing
